@@ -28,6 +28,7 @@ META = {
     "level_note": "Trusts io.StringIO semantics (newline default) and the CFG; off-by-one correctness of products and "
     "sys.getsizeof accuracy are not decided.",
 }
+META["technique"] += '; carry_loop_iterations on every context copy made by a tag; who-may-read the template cache'
 
 CTX = "liquid2.context.RenderContext"
 
@@ -471,3 +472,26 @@ def run(prog: Program, res: Result) -> None:  # noqa: PLR0912, PLR0915
     from checks.shared import check_context_manager_pairing
 
     check_context_manager_pairing(prog, res, "C06.R9")
+    # ------------------------------------------------------------------ R10 child contexts inherit the loop nesting
+    res.rule("C06.R10", "the loop-iteration limit bounds the product of all enclosing loops, across context copies: every RenderContext.copy() made by a tag while rendering passes carry_loop_iterations=True (a copy starts with an empty loop stack; without the carry a loop inside the copy is checked as if it were outermost)")
+    n10 = 0
+    node_base10 = prog.cls("liquid2.ast.Node")
+    for fi in sorted(prog.all_functions(), key=lambda f: (f.file, f.node.lineno)):
+        if fi.cls is None or not prog.is_subclass(fi.cls, node_base10):
+            continue
+        for c in ast.walk(fi.node):
+            if not (isinstance(c, ast.Call) and isinstance(c.func, ast.Attribute) and c.func.attr == "copy" and isinstance(c.func.value, ast.Name) and "context" in c.func.value.id and (c.args or c.keywords)):
+                continue
+            n10 += 1
+            kw = next((k for k in c.keywords if k.arg == "carry_loop_iterations"), None)
+            site = f"{fi.file}:{c.lineno} {fi.qualname}"
+            what = f"{fi.qualname}: the copied context carries the enclosing loops' iteration count"
+            if kw is not None and isinstance(kw.value, ast.Constant) and kw.value.value is True:
+                res.ok("C06.R10", site, what, "carry_loop_iterations=True")
+            else:
+                res.fail("C06.R10", file=fi.file, line=c.lineno, qualname=fi.qualname, construct=f"{fi.qualname}: context.copy() without carry_loop_iterations=True", message=f"{fi.qualname} renders in `{norm(c, 70)}`: the copy's loop stack is empty and nothing carries the enclosing loops over, so a loop inside it is tested against loop_iteration_limit on its own - 10 x 10 iterations pass a limit of 50", what=what)
+    res.floor("C06.R10", "context copies made by tags", n10, 8)
+    res.rule("C06.R11", "the limits in force are those of the environment that renders: a cached template is handed out only by CachingLoaderMixin's hit path, which reloads a template bound to another Environment (all limits are read from template.env) - no loader reads the cache on its own (= C14.R8)")
+    from checks.shared import check_cache_read_ownership
+
+    check_cache_read_ownership(prog, res, "C06.R11")
